@@ -33,6 +33,18 @@ theorem pending_files_of_directory (cfg : Cfg) (all : List MFile) (revs : List R
     (h : (pending cfg all revs).out = .ok l) : ∀ f ∈ l, f ∈ all :=
   pending_sub cfg all revs l h
 
+/-- **pending_is_subsequence**: the files `Pending` returns are a sub-sequence of the directory - in directory
+order, each file at most once - for every revision table, option set and execution order (also `non-linear`,
+where the out-of-order files come first: they all stand in front of the first pending file). -/
+theorem pending_is_subsequence (cfg : Cfg) (all : List MFile) (revs : List Revision) (l : List MFile)
+    (h : (pending cfg all revs).out = .ok l) : l.Sublist all :=
+  pending_sublist cfg all revs l h
+
+/-- **pending_versions_distinct**: no version is returned twice (directories have distinct versions). -/
+theorem pending_versions_distinct (cfg : Cfg) (all : List MFile) (revs : List Revision) (l : List MFile)
+    (hn : (all.map (·.version)).Nodup) (h : (pending cfg all revs).out = .ok l) : (l.map (·.version)).Nodup :=
+  ((pending_sublist cfg all revs l h).map _).nodup hn
+
 /-! ### what "not clean" is: the drivers' `CheckClean` (model `Atlas.Clean`) -/
 
 section Gate
